@@ -39,6 +39,55 @@ print(json.dumps({k: joblib.hash(v) for k, v in vals.items()}))
 '''
 
 
+# history independence: the digest of a value does not depend on what was hashed earlier in the same process
+HISTORY = r'''
+import json, sys
+import joblib
+probes = [
+ {"name": "x", 1.0: "w"}, {"name": "x", True: "w"}, {"name": "x", 1: "w"},
+ {("k", 1), "z"}, {("k", 1.0), "z"}, {("k", True), "z"},
+ {("k", 1): "v", "z": 0}, {("k", 1.0): "v", "z": 0},
+ [{"a", 1}, {"a", 1.0}, {"a", True}],
+ {1: "a", "b": 2}, {1.0: "a", "b": 2}, {True: "a", "b": 2},
+ {(1, "a"), (1.0, "a"), "q"},
+]
+mode = sys.argv[1]
+if mode == "alone":
+    print(json.dumps([joblib.hash(probes[int(sys.argv[2])])]))
+else:
+    idx = list(range(len(probes)))
+    if mode == "backward": idx = idx[::-1]
+    out = {}
+    for rnd in range(2):
+        for i in idx:
+            out.setdefault(i, []).append(joblib.hash(probes[i]))
+    print(json.dumps(out))
+'''
+N_HISTORY = 13
+
+
+def run_history(*argv):
+    out = subprocess.run([sys.executable, "-c", HISTORY] + [str(a) for a in argv], capture_output=True, text=True, timeout=120)
+    if out.returncode != 0:
+        raise RuntimeError(out.stderr[-800:])
+    return json.loads(out.stdout.strip().splitlines()[-1])
+
+
+def history(cases):
+    alone = [run_history("alone", i)[0] for i in range(N_HISTORY)]
+    for mode in ("forward", "backward"):
+        got = run_history(mode)
+        for i in range(N_HISTORY):
+            cases += 1
+            if any(h != alone[i] for h in got[str(i)]):
+                return cases, dict(violation=True, cases=cases, what="digest of probe %d depends on what was hashed before it in the same process (%s pass): %r vs %r alone"
+                                   % (i, mode, got[str(i)], alone[i]), witness=dict(probe_index=i, order=mode))
+    if len(set(alone)) != len(alone):
+        dup = [i for i in range(N_HISTORY) if alone.count(alone[i]) > 1]
+        return cases, dict(violation=True, cases=cases, what="type-differing probes %r share a digest" % (dup,), witness=dup)
+    return cases, None
+
+
 def run(seed, order):
     env = dict(os.environ)
     env["PYTHONHASHSEED"] = str(seed)
@@ -73,6 +122,10 @@ def main(nseeds):
         hs = [ref[k] for k in g]
         if len(set(hs)) != len(hs):
             return dict(violation=True, cases=cases, what="values %r do not all get different digests" % (g,), witness=list(g), known=known)
+    cases, bad = history(cases)
+    if bad:
+        bad["known"] = known
+        return bad
     return dict(violation=False, cases=cases, known=known)
 
 
